@@ -50,8 +50,8 @@ fn run(input: RunInput) -> ScenFuture {
         let constant = w.flag("constant_latency", 0.7);
         let lat_max_us = w.param("lat_max_us", 300, 25_000) as u64;
         let lat_min_us = if constant { lat_max_us } else { 200.min(lat_max_us) };
-        let d_in = w.flag("inbound_default", 0.7).then(|| w.param("inbound_default_ms", 5, 3000) as u64);
-        let d_out = w.flag("outbound_default", 0.7).then(|| w.param("outbound_default_ms", 5, 3000) as u64);
+        let d_in = w.flag("inbound_default", 0.7).then(|| w.param("inbound_default_ms", 0, 3000) as u64);
+        let d_out = w.flag("outbound_default", 0.7).then(|| w.param("outbound_default_ms", 0, 3000) as u64);
         let n_calls = w.param("calls", 1, 30) as u64;
         let mut cfg_s = base_config(60_000, Some(5_000));
         cfg_s.inbound_request_timeout_ms = d_in;
